@@ -13,13 +13,13 @@ def tupleLt : List Int → List Int → Bool
   | a :: as, b :: bs => decide (a < b) || (a == b && tupleLt as bs)
 
 /-- the rows (key tuples) of a frame with `n` rows given by its key columns -/
-def rowsOf (n : Nat) : List (List Int) → List (List Int)
+def keyRows (n : Nat) : List (List Int) → List (List Int)
   | [] => List.replicate n []
-  | c :: cs => List.zipWith (fun x r => x :: r) c (rowsOf n cs)
+  | c :: cs => List.zipWith (fun x r => x :: r) c (keyRows n cs)
 
 /-- `cols` are the columns of the row list `rows` -/
 def ColumnsOf (cols : List (List Int)) (rows : List (List Int)) : Prop :=
-  (∀ c ∈ cols, c.length = rows.length) ∧ rowsOf rows.length cols = rows
+  (∀ c ∈ cols, c.length = rows.length) ∧ keyRows rows.length cols = rows
 
 /-- the target values of the rows whose key tuple is `k`, in original row order -/
 def select {V} (rows : List (List Int)) (tgt : List V) (k : List Int) : List V :=
